@@ -245,7 +245,7 @@ func c11Gen() map[string][]byte {
 func runC11(r *core.Run) {
 	bindRef(r)
 	th := thorough(r)
-	r.Rule = "bounded-exhaustive analogue of 'arbitrary input': (a) EVERY byte string of length <=2 and every string over {00,01,7F,80,FF,FD,21} of length <=4, raw and appended to every structural prefix of valid streams, for all three readers; (b) per base stream: every single-byte substitution with all 255 other values, every pair of substitutions inside the header regions with a 6-value menu, every deletion / insertion / truncation; (c) every field-level edit of the structural mutator with CRC32s re-sealed; (d) generated operation sequences with one format guard violated (distance beyond the window, first op a match/rep, EOS in the middle, size field off by k) in LZMA2, .xz and .lzma (three modes). Oracle: no panic, n<=len(p), <=64 consecutive (0,nil), output cap 64 MiB, 30 s watchdog. non-trivial = distinct (format, outcome class, bytes delivered)"
+	r.Rule = "bounded-exhaustive analogue of 'arbitrary input': (a) EVERY byte string of length <=2 and every string over {00,01,7F,80,FF,FD,21} of length <=4, raw and appended to every structural prefix of valid streams, for all three readers; (b) per base stream: every single-byte substitution with all 255 other values, every pair of substitutions inside the header regions with a 6-value menu, every deletion / insertion / truncation, boundary values written into every 2-/4-/8-byte field position; (c) every field-level edit of the structural mutator with CRC32s re-sealed; (d) generated operation sequences with one format guard violated (distance beyond the window, first op a match/rep, EOS in the middle, size field off by k) in LZMA2, .xz and .lzma (three modes). Oracle: no panic, n<=len(p), <=64 consecutive (0,nil), output cap 64 MiB, 30 s watchdog. non-trivial = distinct (format, outcome class, bytes delivered)"
 	bases := c11Bases()
 	var cases []C11Case
 	// (a) short strings
@@ -325,6 +325,21 @@ func runC11(r *core.Run) {
 			cases = append(cases, C11Case{Fmt: s.Fmt, Base: nm, Muts: []ByteMut{{Kind: "del", Pos: k}}}, C11Case{Fmt: s.Fmt, Base: nm, Muts: []ByteMut{{Kind: "trunc", Pos: k}}})
 			for pat := 0; pat < 3; pat++ {
 				cases = append(cases, C11Case{Fmt: s.Fmt, Base: nm, Muts: []ByteMut{{Kind: "ins", Pos: k, Pat: pat}}})
+			}
+		}
+		// "interesting values" written into 2-, 4- and 8-byte fields at every offset (size fields,
+		// dictionary sizes, chunk sizes: little- and big-endian)
+		for k := 0; k < len(s.Data); k++ {
+			for _, w := range []uint64{0, 1, 0x7F, 0x80, 0xFF, 0x100, 0x7FFF, 0x8000, 0xFFFF} {
+				cases = append(cases, C11Case{Fmt: s.Fmt, Base: nm, Muts: []ByteMut{{Kind: "setbe", Pos: k, Len: 2, W: w}}})
+			}
+			for _, w := range []uint64{0, 1, 0xFFFF, 0x10000, 0x7FFFFFFF, 0x80000000, 0xFFFFFFFF} {
+				cases = append(cases, C11Case{Fmt: s.Fmt, Base: nm, Muts: []ByteMut{{Kind: "setle", Pos: k, Len: 4, W: w}}})
+			}
+			if k < 24 {
+				for _, w := range []uint64{0, 1, 1 << 32, 1<<63 - 1, 1 << 63, 1<<64 - 1} {
+					cases = append(cases, C11Case{Fmt: s.Fmt, Base: nm, Muts: []ByteMut{{Kind: "setle", Pos: k, Len: 8, W: w}}})
+				}
 			}
 		}
 		hdr := 24
